@@ -358,13 +358,20 @@ def decide_equal(pdefs, a, b, guards=(), extra_atoms=('ri',), box=None):
     -> ('equal', n_regimes) | ('differ', witness) | ('unknown', reason)"""
     from itertools import product
     box = box or {'L1': range(1, 7), 'L2': range(1, 7), 'W': range(0, 8), 'ri': range(0, 6), 'j': range(0, 6)}
-    names = ['L1', 'L2', 'W'] + list(extra_atoms)
-    for vals in product(*[box[n] for n in names]):
-        val = _eval_parts(pdefs, dict(zip(names, vals)))
-        if any(sym.evaluate(g, val) < 0 for g in guards):
-            continue
-        if sym.evaluate(a, val) != sym.evaluate(b, val):
-            return ('differ', {k: val[k] for k in names}, sym.evaluate(a, val), sym.evaluate(b, val))
+    extra_atoms = list(extra_atoms)
+    need_parts = [f for f in PARTS_FIELDS if ('P_' + f) in (sym.atoms(a) | sym.atoms(b) | set().union(*[sym.atoms(g) for g in guards]) if guards else sym.atoms(a) | sym.atoms(b))]
+    for l1, l2, w in product(box['L1'], box['L2'], box['W']):
+        base = {'L1': l1, 'L2': l2, 'W': w}
+        for f in need_parts:
+            base['P_' + f] = sym.evaluate(pdefs[f], base)
+        for vals in product(*[box[n] for n in extra_atoms]):
+            val = dict(base)
+            val.update(zip(extra_atoms, vals))
+            if any(sym.evaluate(g, val) < 0 for g in guards):
+                continue
+            va, vb = sym.evaluate(a, val), sym.evaluate(b, val)
+            if va != vb:
+                return ('differ', {k: val[k] for k in ['L1', 'L2', 'W'] + extra_atoms}, va, vb)
     n = 0
     try:
         for off in (False, True):
@@ -940,12 +947,6 @@ def rule_wps_bounds(ctx, m, tier='quick'):
         ctx.count('compact writers bounded', 1)
 
 
-# ------------------------------------------------------------------------------------------ readers (thorough)
-def rule_wps_readers(ctx, m, affinity=False):
-    """Thorough: dtw_expand_wps_slice* and dtw_wps_loc use, per region, the same column <-> position map as the writer."""
-    ctx.undecided('R-MAP', 'expand/loc readers', 'reader map derivation not implemented in this round; writer map, bounds and continuity are decided')
-
-
 # ------------------------------------------------------------------------------------------ affinity
 def rule_affinity(ctx, m, tier='quick'):
     """Python warping_paths_affinity and the C region expansions carry the same recurrence."""
@@ -1129,3 +1130,285 @@ def rule_wps_epilogue(ctx, m):
                 if kind == 'euclidean':
                     ctx.check(not sq, 'R-DOM', f.file, fname, 'only_ub return', 'the euclidean writer must return its Euclidean bound unrooted', e[3].line)
         ctx.sample({'writer': fname, 'kind': kind, 'return': fmt(val)[:200]})
+
+
+# ------------------------------------------------------------------------------------------ readers of the compact layout
+class RRegion:
+    pass
+
+
+def _lockstep_inner(loop):
+    """inner `for` over a column variable with another variable incremented once per iteration -> (inner, colvar, posvar)"""
+    for s in loop.body:
+        if s.k == 'for':
+            for v in assigned_vars(s.body):
+                if v != s.var and paths_increments(s.body, v) == {1}:
+                    # posvar must index wps somewhere in the loop body
+                    uses = any(x[0] == 'idx' and x[1] == ('var', 'wps') and any(y == ('var', v) for y in walk_expr(x[2]))
+                               for t in walk_stmts(s.body) for e in stmt_exprs(t) for x in walk_expr(e)) or \
+                        any(t.k == 'return' and t.value is not None and any(y == ('var', v) for y in walk_expr(t.value)) for t in walk_stmts(s.body))
+                    if uses:
+                        return s, s.var, v
+    return None
+
+
+def analyse_reader(m, fname, pvar_is_pointer):
+    """Region loops of a reader of the compact layout.  Returns list of RRegion with, per DP/buffer row variable `ri`:
+    rows [lo, hi), column start c_init, position start w_init, column end, and the wps row base used."""
+    f = m.cfunc(fname)
+    if f is None:
+        raise AnalysisError('anchor vanished: C function %s' % fname)
+    symexec.STRUCTS.clear()
+    symexec.ARRAYS.clear()
+    symexec.ARRAYS.update({'wps', 'full'})
+    amap = PAtoms()
+    if not pvar_is_pointer:
+        symexec.STRUCTS.add('p')
+    out = []
+    env = Env()
+
+    def visit(stmts, env):
+        ex = None
+        i = 0
+        while i < len(stmts):
+            s = stmts[i]
+            if s.k == 'for' and _lockstep_inner(s) is not None:
+                out.append(_reader_region(f, s, env.copy(), amap))
+                # summarise loop effect
+                steps = out[-1].steps
+                trip = ('bin', '-', out[-1].hi_e, out[-1].lo_e)
+                for v in assigned_vars([s]):
+                    if v in steps:
+                        env[v] = ('bin', '+', env.get(v, ('var', v)), ('bin', '*', steps[v], trip))
+                    else:
+                        env[v] = ('var', v + '@after%d' % len(out))
+            elif s.k == 'if' and any(t.k == 'for' and _lockstep_inner(t) is not None for t in walk_stmts(s.then)):
+                # region guarded by `if (rbs < p.riK)`: analyse inside with the same env; effects on env are region-local except affine vars
+                e2 = env.copy()
+                visit(s.then, e2)
+                for v in assigned_vars(s.then):
+                    env[v] = e2.get(v, ('var', v + '@g'))
+            else:
+                r = Exec(havoc_tag='rd').run([s], env)
+                if r is None:
+                    break
+            i += 1
+    visit(f.body, env)
+    symexec.STRUCTS.clear()
+    symexec.ARRAYS.clear()
+    return f, out, amap
+
+
+def _reader_region(f, loop, env, amap):
+    R = RRegion()
+    R.loop = loop
+    R.fname = f.name
+    R.file = f.file
+    R.lo_e = subst_expr(loop.lo, env)
+    R.hi_e = subst_expr(loop.hi, env)
+    R.lo = sym.from_ir(norm_minmax(R.lo_e), atom=amap)
+    R.hi = sym.from_ir(norm_minmax(R.hi_e), atom=amap)
+    top = loop.body
+    R.steps = {}
+    for v in assigned_vars(top) - {loop.var}:
+        ta = _top_assigns(top, v)
+        alla = [s for s in walk_stmts(top) if s.k == 'assign' and s.target == ('var', v)]
+        if len(ta) == 1 and len(alla) == 1 and ta[0].d.get('aug') == '+' and not (set(x[1] for x in walk_expr(ta[0].value[3]) if x[0] == 'var') & assigned_vars(top)):
+            R.steps[v] = ta[0].value[3]
+    ienv = env.copy()
+    ienv[loop.var] = ('var', 'ri')
+    for v, st in R.steps.items():
+        vin = env.get(v, ('var', v))
+        ienv[v] = ('bin', '+', vin, ('bin', '*', st, ('bin', '-', ('var', 'ri'), R.lo_e)))
+    for v in assigned_vars(top) - set(R.steps) - {loop.var}:
+        ienv[v] = ('var', v + '@row')
+    inner, colvar, posvar = _lockstep_inner(loop)
+    R.inner, R.colvar, R.posvar = inner, colvar, posvar
+    mi = top.index(inner)
+    ex = Exec(havoc_tag='row')
+    renv = ex.run(top[:mi], ienv)
+    if renv is None:
+        # early returns before the inner loop on some path (dtw_wps_loc): run ignoring returns
+        renv = ienv
+    R.w_init_e = renv.get(posvar)
+    R.c_init_e = subst_expr(inner.lo, renv) if inner.lo is not None else renv.get(colvar)
+    R.hi_col_e = subst_expr(inner.hi, renv)
+    R.w_init = sym.from_ir(norm_minmax(R.w_init_e), atom=amap)
+    R.c_init = sym.from_ir(norm_minmax(R.c_init_e), atom=amap)
+    R.hi_col = sym.from_ir(norm_minmax(R.hi_col_e), atom=amap)
+    # the wps access inside the inner loop: row base
+    cenv = renv.copy()
+    cenv[colvar] = ('var', 'j')
+    cenv[posvar] = ('var', 'Q')
+    acc = None
+    for t in walk_stmts(inner.body):
+        for e in stmt_exprs(t):
+            for x in walk_expr(e):
+                if x[0] == 'idx' and x[1] == ('var', 'wps') and any(y == ('var', posvar) for y in walk_expr(x[2])):
+                    acc = subst_expr(x[2], cenv)
+    R.access = sym.from_ir(norm_minmax(acc), atom=amap) if acc is not None else None
+    return R
+
+
+READERS = [
+    # (function, p is a pointer parameter, row variable counts buffer rows (DP row + 1), column variable counts matrix columns (DP col + 1))
+    ('dtw_expand_wps_slice', False, False, False),
+    ('dtw_expand_wps_slice_affinity', False, False, False),
+    ('dtw_wps_loc', True, True, True),
+    ('dtw_wps_max', True, True, True),
+]
+
+
+def rule_wps_readers(ctx, m, affinity=False):
+    """Every reader of the compact layout uses, region by region, the writer's column <-> position map."""
+    pdefs, praw = parts_defs(m)
+    winfo = analyse_writer(m, WRITERS[0])
+    wregs = winfo['regions']
+    for R in wregs:
+        # writer deltas need Delta for nothing here
+        pass
+    slice_atoms = ('rb', 're', 'cb', 'ce')
+    for fname, pptr, bufrows, matcols in READERS:
+        if affinity != ('affinity' in fname) and fname.startswith('dtw_expand'):
+            continue
+        f, rregs, amap = analyse_reader(m, fname, pptr)
+        ctx.check(len(rregs) == 4, 'R-MAP', f.file, fname, 'reader regions', 'expected four region loops (A, B, C, D) in %s, found %d' % (fname, len(rregs)), f.line)
+        if len(rregs) != 4:
+            continue
+        for RR, WR in zip(rregs, wregs):
+            ro = C(1) if bufrows else C(0)       # ri_reader = DP row + ro
+            co = C(1) if matcols else C(0)
+            dprow = sub(V('ri'), ro)
+            extra = tuple(a for a in slice_atoms if a in (sym.atoms(RR.lo) | sym.atoms(RR.hi) | sym.atoms(RR.c_init) | sym.atoms(RR.w_init)))
+            guards = [sub(V('ri'), RR.lo), sub(sub(RR.hi, V('ri')), C(1))] + [V(a) for a in extra]
+            if 'rb' in extra and 're' in extra:
+                guards.append(sub(V('re'), V('rb')))
+            if 'cb' in extra and 'ce' in extra:
+                guards.append(sub(V('ce'), V('cb')))
+            box = {'L1': range(1, 6), 'L2': range(1, 6), 'W': range(0, 5), 'ri': range(0, 6), 'rb': range(0, 5), 're': (3, 6), 'cb': range(0, 4), 'ce': (3, 6)}
+            # (i) reader rows lie inside the writer's region
+            w_lo = sym.subst(WR.lo, {})
+            inside = tmax(C(0), sub(WR.lo, dprow), add(sub(dprow, WR.hi), C(1)))
+            r = decide_equal(pdefs, inside, C(0), guards, extra_atoms=('ri',) + extra, box=box)
+            inst = '%s region %s rows inside the writer region' % (fname, WR.name)
+            _report(ctx, r, 'R-MAP', RR.file, fname, 'region %s rows' % WR.name, inst,
+                    'the %s loop of %s visits a row that the writer fills in a different region' % (WR.name, fname), RR.loop.line)
+            # (ii) same column <-> position map: (c_init - co) - w_init == delta_writer(dp row)
+            d_reader = sub(sub(RR.c_init, co), RR.w_init)
+            d_writer = sym.subst(WR.delta, {'ri': dprow})
+            r = decide_equal(pdefs, d_reader, d_writer, guards, extra_atoms=('ri',) + extra, box=box)
+            inst = '%s region %s column/position map' % (fname, WR.name)
+            _report(ctx, r, 'R-MAP', RR.file, fname, 'region %s map' % WR.name, inst,
+                    'in region %s, %s reads position q of a row as column q + (%s) while the writer stored column q + (%s) there'
+                    % (WR.name, fname, sym.show(d_reader)[:80], sym.show(WR.delta)[:80]), RR.loop.line)
+            # (iii) the row base addresses buffer row (DP row + 1)
+            if RR.access is not None and RR.access[0] == 'lin':
+                co_ = dict(RR.access[1])
+                okb = co_.get('Q') == 1
+                ctx.check(okb, 'R-MAP', RR.file, fname, 'region %s access' % WR.name, 'the compact matrix must be read at (row base) + position', RR.loop.line)
+        ctx.sample({'reader': fname, 'regions': [{'rows': [sym.show(r.lo)[:60], sym.show(r.hi)[:60]], 'c_init': sym.show(r.c_init)[:80], 'w_init': sym.show(r.w_init)[:80]} for r in rregs]})
+
+
+def _report(ctx, r, rule, file, fname, construct, inst, what, line):
+    if r[0] == 'equal':
+        ctx.held(rule, inst, 'proved in %d regimes' % r[1])
+    elif r[0] == 'differ':
+        ctx.violation(rule, file, fname, construct, '%s: at %s the two sides are %s vs %s' % (what, kern._fmtw(r[1]), r[2], r[3]), line, facts={'witness': r[1]})
+    else:
+        ctx.undecided(rule, inst, r[1])
+
+
+# ------------------------------------------------------------------------------------------ back-tracking move tables (C)
+def rule_best_path_moves(ctx, m):
+    """In each of the three back-tracking loops (regions D, C, A-B) the candidates read and the position updates agree
+    with the writer's per-row layout shift Delta of that region: diag = (prev row, Q + Delta - 1), up = (prev row,
+    Q + Delta), left = (this row, Q - 1); moves: diag Q += Delta - 1, up Q += Delta, left Q -= 1."""
+    pdefs, praw = parts_defs(m)
+    winfo = analyse_writer(m, WRITERS[0])
+    wregs = {R.name: R for R in winfo['regions']}
+    with ctx.scoped(lambda r, t: False):
+        for R in winfo['regions']:
+            _region_rules(ctx, R, winfo['amap'], pdefs, False)
+    shifts = [wregs['D'].Delta, wregs['C'].Delta, wregs['A'].Delta]
+    guards_want = [('attr', ('var', 'p'), 'ri3'), ('attr', ('var', 'p'), 'ri2'), ('num', 0)]
+    names = ['D', 'C', 'A-B']
+    for fn in ('dtw_best_path', 'dtw_best_path_customstart', 'dtw_best_path_isclose', 'dtw_best_path_affinity'):
+        f = m.cfunc(fn)
+        if f is None:
+            raise AnalysisError('anchor vanished: C function %s' % fn)
+        loops = [s for s in f.body if s.k == 'while']
+        if len(loops) != 3:
+            ctx.violation('R-MAP', f.file, fn, 'back-tracking loops', 'expected three region loops, found %d' % len(loops), f.line)
+            continue
+        maxv = fn.endswith('affinity')
+        for k, lp in enumerate(loops):
+            Delta = shifts[k]
+            # guard
+            c = lp.cond
+            okg = c[0] == 'bin' and c[1] == 'and' and c[2] == ('bin', '>', ('var', 'rip'), guards_want[k]) and c[3] == ('bin', '>', ('var', 'cip'), ('num', 0))
+            ctx.check(okg, 'R-MAP', f.file, fn, 'loop %s guard' % names[k], 'the %s loop must run while rip > %s and cip > 0; found %s' % (names[k], fmt(guards_want[k]), fmt(c)), lp.line)
+            chain = [s for s in lp.body if s.k == 'if' and reads_of(s.cond, 'wps') and len([x for x in walk_expr(s.cond) if x[0] == 'idx' and x[1] == ('var', 'wps')]) >= 2]
+            if not chain:
+                ctx.violation('R-MAP', f.file, fn, 'loop %s move chain' % names[k], 'no move selection found', lp.line)
+                continue
+            ch = chain[-1]
+            arms = [(ch.cond, ch.then)]
+            cur = ch
+            while len(cur.els) == 1 and cur.els[0].k == 'if':
+                cur = cur.els[0]
+                arms.append((cur.cond, cur.then))
+            arms.append((None, cur.els))
+            if len(arms) != 3:
+                ctx.violation('R-MAP', f.file, fn, 'loop %s move chain' % names[k], 'expected diagonal / left / up arms, found %d' % len(arms), ch.line)
+                continue
+
+            def pos(e):
+                t = sym.from_ir(e, atom=lambda x: {'ri_width': 'RW', 'ri_widthp': 'RWP', 'wpsi': 'Q'}.get(x[1]) if x[0] == 'var' else None)
+                co = dict(t[1]) if t[0] == 'lin' else {}
+                row = 'cur' if co.get('RW') == 1 else ('prev' if co.get('RWP') == 1 else None)
+                return (row, t[2]) if co.get('Q') == 1 and row else None
+
+            def cmp_pairs(cond):
+                out = []
+                for x in walk_expr(cond):
+                    if x[0] == 'bin' and x[1] in ('<=', '>=', '<', '>'):
+                        l, r = x[2], x[3]
+                        pen = False
+                        if r[0] == 'bin' and r[1] == '+' and r[3] == ('attr', ('var', 'p'), 'penalty'):
+                            r, pen = r[2], True
+                        if l[0] == 'idx' and l[1] == ('var', 'wps') and r[0] == 'idx' and r[1] == ('var', 'wps'):
+                            out.append((x[1], pos(l[2]), pos(r[2]), pen))
+                return out
+            want_op = '>=' if maxv else '<='
+            c1 = cmp_pairs(arms[0][0])
+            diag = ('prev', Delta - 1)
+            up = ('prev', Delta)
+            left = ('cur', -1)
+            ok1 = len(c1) >= 2 and all(o == want_op and a == diag for o, a, b, pen in c1) and {b for o, a, b, pen in c1} == {up, left} and all(pen for o, a, b, pen in c1)
+            ctx.check(ok1, 'R-MAP', f.file, fn, 'loop %s diagonal test' % names[k],
+                      'with a per-row layout shift of %d the diagonal predecessor is at (previous row, Q%+d), up at (previous row, Q%+d), left at (this row, Q-1); '
+                      'the diagonal is taken when it is %s both others + penalty (ties go diagonal); found %s' % (Delta, Delta - 1, Delta, want_op, c1), ch.line)
+            c2 = cmp_pairs(arms[1][0])
+            ok2 = len(c2) >= 1 and all(o == want_op and a == left and b == up for o, a, b, pen in c2)
+            ctx.check(ok2, 'R-MAP', f.file, fn, 'loop %s left/up test' % names[k], 'the second test must compare left (this row, Q-1) with up (previous row, Q%+d); found %s' % (Delta, c2), ch.line)
+
+            def moves(body):
+                mv = {'Q': 0, 'rip': 0, 'cip': 0, 'rowshift': False}
+                for s in body:
+                    if s.k == 'assign' and s.target == ('var', 'wpsi'):
+                        t = sym.from_ir(s.value, atom=lambda x: 'Q' if x == ('var', 'wpsi') else None)
+                        mv['Q'] = t[2] if t[0] == 'lin' and dict(t[1]).get('Q') == 1 else None
+                    if s.k == 'assign' and s.target == ('var', 'rip') and s.d.get('aug') == '-':
+                        mv['rip'] -= 1
+                    if s.k == 'assign' and s.target == ('var', 'cip') and s.d.get('aug') == '-':
+                        mv['cip'] -= 1
+                    if s.k == 'assign' and s.target == ('var', 'ri_width') and s.value == ('var', 'ri_widthp'):
+                        mv['rowshift'] = True
+                return mv
+            md, ml, mu = moves(arms[0][1]), moves(arms[1][1]), moves(arms[2][1])
+            okm = md == {'Q': Delta - 1, 'rip': -1, 'cip': -1, 'rowshift': True} and ml == {'Q': -1, 'rip': 0, 'cip': -1, 'rowshift': False} \
+                and mu == {'Q': Delta, 'rip': -1, 'cip': 0, 'rowshift': True}
+            ctx.check(okm, 'R-MAP', f.file, fn, 'loop %s moves' % names[k],
+                      'moves must be diagonal (row-1, col-1, Q%+d), left (col-1, Q-1), up (row-1, Q%+d) with the row bases shifted on every row change; found diag=%s left=%s up=%s'
+                      % (Delta - 1, Delta, md, ml, mu), ch.line)
+        ctx.sample({'back-tracker': fn, 'shifts (D, C, A-B)': shifts})
